@@ -104,7 +104,7 @@ var lineBodyBytes = []byte("abcxyzABC0123456789 \t\r\r.,;-+_\x00\xff\xc3\xa9")
 var anyBytes = []byte("ab01 \n\n\n\r\r\t\x00\xff,.-+eE\x80z9")
 
 var numerals = []string{"0", "7", "42", "-3", "+5", "3.25", "-0.5", ".5", "5.", "1e3", "2E-2", "-1.5e+2", "123456789", "00012", "9007199254740993", "0.1"}
-var numSeps = []string{" ", "\n", "\t", "\r\n", " \n ", ",", ";", "  ", "\n\n", " \t", "\r", "\v", "\f"}
+var numSeps = []string{" ", "\n", "\t", "\r\n", " \n ", ",", ";", "  ", "\n\n", " \t", "\r", "\v", "\f", "-", "+", "-", ""}
 var nonNumerals = []string{"x", ",", "abc", "-", "0x10", "1e", "inf", "nan", "1_0", "12abc", ".", "#", "1.5.2", "1p3"}
 
 var bigLens = []int{4094, 4095, 4096, 4097, 4098, 5000, 8191, 8192, 8193}
